@@ -426,7 +426,7 @@ func prepareCall(fr *frame, call *ssa.CallCommon) (fn value, args []value) {
 		// Interface method invocation.
 		recv := v.(iface)
 		if recv.t == nil {
-			if mp := call.Method.Pkg(); mp != nil && (strings.HasPrefix(mp.Path(), "go.opentelemetry.io/") || strings.HasPrefix(mp.Path(), "github.com/rs/zerolog")) {
+			if mp := call.Method.Pkg(); mp != nil && (strings.HasPrefix(mp.Path(), "go.opentelemetry.io/") || strings.HasPrefix(mp.Path(), "github.com/rs/zerolog") || mp.Path() == "reflect") {
 				// stubbed library: interface values of its types are nil; every method is a no-op
 				return noopFn{call.Method.Type().(*types.Signature)}, nil
 			}
